@@ -67,7 +67,7 @@ fn varname_cmp_spec() {
     assert!((got == Ordering::Equal) == (VarName::new(sa) == VarName::new(sb)));
 }
 
-// @C19 kani.cgi.varname_hash_agrees_with_eq bounded(two ASCII names <= 18 bytes that differ only in letter case; crosses the 16-byte chunk) thorough
+// @C19 kani.cgi.varname_hash_agrees_with_eq bounded(two ASCII names <= 18 bytes that differ only in letter case; crosses the 16-byte chunk)
 #[kani::proof]
 #[kani::unwind(20)]
 fn varname_hash_case_insensitive() {
@@ -111,4 +111,30 @@ fn static_names_view() {
     let v: &VarName = sv.into();
     assert!(v == VarName::new(text));
     assert!(owned == OwnedVarName::from(sv));
+}
+
+// (not run: CompactString's inline-asm `ensure_read` is reachable -- a construct Kani does not support; the normalising
+// constructors / from_compact are therefore NOT covered by C19's bounded claim)
+// @C99 kani.cgi.normalising_constructors_uppercase bounded(ASCII names <= 3 bytes through From<String>, From<Box<str>>, From<Cow::Owned>, from_mut_str) thorough
+#[kani::proof]
+#[kani::unwind(8)]
+fn normalising_constructors() {
+    let a: [u8; 3] = kani::any();
+    let n: usize = kani::any();
+    kani::assume(n <= 3);
+    let s = ascii(&a, n);
+    let which: u8 = kani::any();
+    kani::assume(which < 4);
+    let owned = match which {
+        0 => OwnedVarName::from(String::from(s)),
+        1 => OwnedVarName::from(Box::<str>::from(s)),
+        2 => OwnedVarName::from(std::borrow::Cow::<str>::Owned(String::from(s))),
+        _ => { let mut t = String::from(s); OwnedVarName::from_mut_str(t.as_mut_str()) },
+    };
+    let r: &str = owned.as_ref();
+    let rb = r.as_bytes();
+    assert!(rb.len() == n);
+    let mut i = 0;
+    while i < 3 { if i < n { assert!(rb[i] == up(a[i])); } i += 1; }
+    kani::cover!(n == 3 && a[0] == b'q' && which == 1);
 }
